@@ -206,6 +206,35 @@ def parse_level_oracle(ctx):
                 ctx.violation("otf-includes-ignorable:%s|%r" % (name, inp), "original_text_for(%s) on %r returns %r (starts with skipped text)" % (name, inp, early[1]),
                               {"kind": "otf-late", "name": name, "input": inp})
     ctx.stat("otf_late_ignore_cases", nlate)
+    # the end location of a repetition is the end of its last item, also when ignorables follow it
+    nrep = 0
+    for rname, mkrep in (("OneOrMore", lambda x: pp.OneOrMore(x)), ("ZeroOrMore", lambda x: pp.ZeroOrMore(x)),
+                         ("OneOrMore+stop_on", lambda x: pp.OneOrMore(x, stop_on=pp.Literal("end"))), ("DelimitedList", lambda x: pp.DelimitedList(x, delim=","))):
+        for keep in (False, True):
+            for inp in ["ab ba /* note */ 12", "ab ba/*n*/12", "ab\tba /* a\tb */\t12", "ab ba /* note */", "ab ba 12", "ab ba /*x*/ /*y*/ 12 ab", "ab,ba /* n */ 12"]:
+                if (rname == "DelimitedList") != ("," in inp):
+                    continue
+                seen = []
+                leaf = pp.Word("ab").add_parse_action(lambda s_, l, t: seen.append((l, t[0])))
+                rep = mkrep(leaf)
+                e = (pp.Located(rep)("rep") + pp.Opt(pp.Word("12"))).ignore(pp.c_style_comment)
+                if keep:
+                    e.parse_with_tabs()
+                parsed = inp if keep else inp.expandtabs()
+                try:
+                    r = e.parse_string(inp)
+                except pp.ParseBaseException:
+                    continue
+                nrep += 1
+                ctx.case("rep-end|%s|%s|%r" % (rname, keep, inp), True, True)
+                want = max(l + len(t) for l, t in seen) if seen else None
+                got = r["rep"]["locn_end"]
+                if want is not None and got != want:
+                    ctx.violation("rep-end:%s|%s|%r" % (rname, keep, inp),
+                                  "%s(Word('ab')) with ignore(c_style_comment)%s on %r: the last item ends at %d (%r) but the repetition reports end %d (%r)" % (
+                                      rname, " and parse_with_tabs" if keep else "", inp, want, parsed[:want], got, parsed[:got]),
+                                  {"kind": "rep-end"})
+    ctx.stat("rep_end_cases", nrep)
     ctx.stat("parse_level_cases", len(exprs) * 4 * len(inputs))
 
 
@@ -238,6 +267,14 @@ def replay(ctx, obj):
         if bad:
             print("s=%r loc=%d: %s" % (r["s"], r["loc"], bad))
         return bad is None
+    if r.get("kind") == "rep-end":
+        c2 = vlib.Ctx(PROP, "quick", 0)
+        c2.known = {}
+        parse_level_oracle(c2)
+        bad = [v for v in c2.violations if v["key"].startswith("rep-end")]
+        for v in bad:
+            print(v["what"])
+        return not bad
     if r.get("kind") == "otf-late":
         c2 = vlib.Ctx(PROP, "quick", 0)
         c2.known = {}
